@@ -75,7 +75,8 @@ EXTRA = {
            "the intron / exon / split-exon profiles of every isoform with the definition; stage profiles_mid takes the "
            "known features from two near-identical isoforms.",
     "C20": "The smoke stage also starts runs that share --genedb_output and use annotations of one file name in "
-           "different folders.",
+           "different folders; its runs are started behind a barrier (vlib/barrier_launch.py) so that they begin within "
+           "the same millisecond.",
     "C18": "Annotations that carry Canonical attributes of their own (every occurrence is checked); clause for the "
            "reporting level only_canonical.",
 }
